@@ -175,6 +175,9 @@ impl Prop for C01 {
                     form_name(form), c, hex(x), hex(got), p.show(), ratio(got, &p, &bound), bound.show()
                 );
             }
+            if deg > 0 {
+                ctx.ratio("polynomial: |fl-P| / (4(n+2)u·S)", ratio(got, &p, &bound));
+            }
             Outcome::Pass
         } else {
             // ---- Log wrapper ----
@@ -212,6 +215,7 @@ impl Prop for C01 {
                     form_name(form), c, hex(v), hex(got), p.dy().show(), lstar.dy().show(), ratio(got, p.dy(), &bound), bound.show()
                 );
             }
+            ctx.ratio("Log: |fl-p(ln v)| / bound", ratio(got, p.dy(), &bound));
             Outcome::Pass
         }
     }
